@@ -29,6 +29,12 @@ Lemma run_bind_string {A} (f : list N -> dec A) s :
   | FOk z r => run_flat (f z) r | FErr e => FErr e | FPanic w => FPanic w | FFuel => FFuel end.
 Proof. rewrite run_flat_bind by apply rd_lenbytes_robust. reflexivity. Qed.
 
+Lemma run_eff_sub {S} (d : dec unit) (σ : S) (k : S -> dec unit) s : robust d ->
+  run_flat (eff_sub d σ k) s =
+  match run_flat d s with
+  | FOk _ r => run_flat (k σ) r | FErr e => FErr e | FPanic w => FPanic w | FFuel => FFuel end.
+Proof. intros R. unfold eff_sub. rewrite run_flat_bind by exact R. reflexivity. Qed.
+
 Definition dinterp (F : nat) (body : list (cstmt dst (dec unit))) (σ : dst) : dec unit :=
   exec (@Crash unit) (@NoFuel unit) F body σ (fun _ => Ret tt) (fun _ => Ret tt) (fun _ => Ret tt).
 
@@ -336,14 +342,14 @@ Proof.
   destruct r1 as [|b r2]; [reflexivity|]. cbn [List.length] in P1.
   cbn [d_err dset_has d_has]. rewrite He.
   destruct (b =? 0) eqn:B; cbn [negb].
-  - cbn [run_flat]. apply KIN; cbn [d_i dset_has d_length d_err]; try lia; try reflexivity. exact He.
-  - cbn [eff_sub]. rewrite run_flat_bind by apply ne_r.
+  - cbn [run_flat]. apply (KIN _ (dset_has σ false)); cbn [d_i dset_has d_length d_err]; try lia; try reflexivity. exact He.
+  - rewrite run_eff_sub by apply ne_r.
     cbn [d_i dset_has].
     pose proof (rest_le (ne (Z.to_N (d_i σ))) r2) as RL.
     destruct (run_flat (ne (Z.to_N (d_i σ))) r2) as [u r3| | |]; try reflexivity.
     specialize (RL u r3 eq_refl).
     cbn [d_err dset_has]. rewrite He.
-    apply KIN; cbn [d_i dset_has d_length d_err]; try lia; try reflexivity. exact He.
+    apply (KIN _ (dset_has σ true)); cbn [d_i dset_has d_length d_err]; try lia; try reflexivity. exact He.
 Qed.
 
 Definition registry_interp (F : nat) : dec unit := dinterp F (c08_Registry_ReadFrom ne) (dst0 0).
@@ -367,3 +373,94 @@ Proof.
   - destruct (N.leb_spec (Z.to_N c) 0) as [L2|L2]; [|lia]. reflexivity.
 Qed.
 End Reg.
+
+(* ---------------------------------------------------------------- the update-tags case of joinConfiguration *)
+Section UpdateTags.
+Variable known : list N -> option Z.
+Variable ci : dec unit.
+Variable ct : Z -> dec unit.
+Hypothesis ci_r : robust ci.
+Hypothesis ct_r : forall nv, robust (ct nv).
+
+Definition ut_for : cstmt dst (dec unit) := nth 6 (c08_update_tags known ci ct) CBreak.
+Definition ut_elem : N -> dec unit :=
+  fun _ => id <- rd_lenbytes ;; match known id with None => ci | Some nv => ct nv end.
+Lemma ut_elem_robust i : robust (ut_elem i).
+Proof.
+  unfold ut_elem. apply robust_bind; [apply rd_lenbytes_robust|]. intros id.
+  destruct (known id); [apply ct_r|apply ci_r].
+Qed.
+
+Lemma ut_loop : forall f σ s M K,
+  (List.length s < f)%nat -> (List.length s < M)%nat ->
+  (0 <= d_i σ)%Z -> (d_i σ < d_length σ)%Z -> d_err σ = false ->
+  (forall σ' r, run_flat (K σ') r = FOk tt r) ->
+  run_flat (exec (@Crash unit) (@NoFuel unit) f (body_of ut_for ++ [again ut_for]) σ K K
+                 (fun σ' => exec (@Crash unit) (@NoFuel unit) f [again ut_for] σ' K K K)) s
+  = run_flat (_ <- ut_elem (Z.to_N (d_i σ)) ;; rep M ut_elem (Z.to_N (d_i σ) + 1) (Z.to_N (d_length σ))) s.
+Proof.
+  induction f as [|f IH]; intros σ s M K Hf HM Hi Hc He HK; [lia|].
+  assert (KIN: forall σ' r, (List.length r < List.length s)%nat -> d_i σ' = d_i σ -> d_length σ' = d_length σ ->
+               d_err σ' = false ->
+               run_flat (if (d_i σ' + 1 <? d_length σ')%Z
+                         then exec (@Crash unit) (@NoFuel unit) f (body_of ut_for ++ [again ut_for])
+                                   (dset_i σ' (d_i σ' + 1)) K K
+                                   (fun σ'' => exec (@Crash unit) (@NoFuel unit) f [again ut_for] σ'' K K K)
+                         else K (dset_i σ' (d_i σ' + 1))) r
+               = run_flat (rep M ut_elem (Z.to_N (d_i σ) + 1) (Z.to_N (d_length σ))) r).
+  { intros σ' r Hr Ei El Ee. rewrite Ei, El. destruct M as [|M']; [lia|]. cbn [rep].
+    destruct (Z.ltb_spec (d_i σ + 1) (d_length σ)) as [L|L].
+    - destruct (N.leb_spec (Z.to_N (d_length σ)) (Z.to_N (d_i σ) + 1)) as [L2|L2]; [lia|].
+      rewrite IH with (M := M'); cbn [d_i dset_i d_length d_err]; try lia; try assumption.
+      try rewrite Ei. try rewrite El. replace (Z.to_N (d_i σ + 1)) with (Z.to_N (d_i σ) + 1) by lia. reflexivity.
+    - destruct (N.leb_spec (Z.to_N (d_length σ)) (Z.to_N (d_i σ) + 1)) as [L2|L2]; [|lia].
+      cbn [run_flat]. apply HK. }
+  cbn [ut_for c08_update_tags nth body_of again app] in KIN |- *.
+  cbn [exec].
+  rewrite run_eff_string.
+  rewrite run_flat_bind by apply ut_elem_robust.
+  unfold ut_elem at 1. rewrite run_bind_string.
+  pose proof (rd_lenbytes_prog s) as P1.
+  destruct (run_flat rd_lenbytes s) as [key r1| | |]; cbn [prog] in P1; try contradiction; [|reflexivity].
+  cbn [d_err dset_key d_key]. rewrite He.
+  destruct (known key) as [nv|] eqn:EK; cbn [negb].
+  - rewrite run_eff_sub by apply ct_r.
+    pose proof (rest_le (ct nv) r1) as RL.
+    destruct (run_flat (ct nv) r1) as [u r3| | |]; try reflexivity.
+    specialize (RL u r3 eq_refl). cbn [d_err dset_key]. rewrite He.
+    apply (KIN (dset_key σ key)); cbn [d_i dset_key d_length d_err]; try lia; try reflexivity. exact He.
+  - rewrite run_eff_sub by apply ci_r.
+    pose proof (rest_le ci r1) as RL.
+    destruct (run_flat ci r1) as [u r3| | |]; try reflexivity.
+    specialize (RL u r3 eq_refl). cbn [d_err dset_key]. rewrite He.
+    apply (KIN (dset_key σ key)); cbn [d_i dset_key d_length d_err]; try lia; try reflexivity. exact He.
+Qed.
+
+Definition update_tags_interp (F : nat) : dec unit := dinterp F (c08_update_tags known ci ct) (dst0 0).
+
+Theorem update_tags_interp_ok F M s : (List.length s < F)%nat -> (List.length s < M)%nat ->
+  run_flat (update_tags_interp F) s = run_flat (l <- rd_varint ;; rep M ut_elem 0 (Z.to_N l)) s.
+Proof.
+  intros HF HM. destruct F as [|f]; [lia|].
+  pose proof ut_loop as LOOP.
+  unfold update_tags_interp, dinterp.
+  cbn [ut_for c08_update_tags nth body_of again app] in LOOP.
+  unfold c08_update_tags.
+  cbn [exec]. rewrite run_eff_varint, run_bind_varint.
+  pose proof (rd_varint_prog s) as P.
+  destruct (run_flat rd_varint s) as [c r| | |]; cbn [prog] in P; try contradiction; [|reflexivity].
+  cbn [d_err dset_length dset_key dset_i d_i d_length dst0].
+  destruct M as [|M']; [lia|]. cbn [rep].
+  destruct (Z.ltb_spec 0 c) as [L|L].
+  - destruct (N.leb_spec (Z.to_N c) 0) as [L2|L2]; [lia|].
+    rewrite LOOP with (M := M'); cbn [d_i dset_i d_length dset_length dset_key d_err dst0]; try lia; try reflexivity.
+  - destruct (N.leb_spec (Z.to_N c) 0) as [L2|L2]; [|lia]. reflexivity.
+Qed.
+End UpdateTags.
+
+(* with the model's own callees: exactly Model.C08.update_tags *)
+Theorem update_tags_interp_model F M known s : (List.length s < F)%nat -> (List.length s < M)%nat ->
+  run_flat (update_tags_interp known (idle_tags M) (tags_read M) F) s = run_flat (update_tags M known) s.
+Proof.
+  intros HF HM. apply update_tags_interp_ok; auto; intros; [apply idle_tags_robust|apply tags_read_robust].
+Qed.
